@@ -519,6 +519,9 @@ func Run(sc Scenario) *Result {
 		}
 		time.Sleep(time.Millisecond)
 	}
+	if closedByProg && atomic.LoadInt32(&poisoned) == 0 && res.Leftover == 0 && len(res.Stuck) == 0 {
+		rec.Log("qs") // quiescent: the census ran and no goroutine of the router, a handler, a decorator or a scripted subscriber is left
+	}
 	st := "0"
 	if len(res.Stuck) > 0 {
 		st = "1"
